@@ -165,7 +165,7 @@ class Segment(CoreSummaries, Contract):
             cl.append(Clause('C03.what_is_emitted_is_awaited_by_the_coroutine_not_returned', ['C03', 'C02'],
                              fn=lambda self_, I, o, fr: (z3.Length(sym.flat_aw(o.state.ghost['emit_rets'].t)) == 0)
                              if 'emit_rets' in o.state.ghost else None,
-                             when='return',
+                             when='return_or_gen_return',
                              note='the result of a coroutine is not awaited by its caller: a segment that emits and then returns '
                                   'hands the downstream awaitables to nobody (no backpressure, async consumers never run)'))
         if self.emission_must_be_awaited:
